@@ -114,4 +114,12 @@ CHECKS = {
  'jobs': [{'pkg': 'c08', 'run': 'TestHandlerNegotiation', 'checks': {'quick': 12000, 'thorough': 480000}, 'shards': {'quick': 4, 'thorough': 16}},
           {'pkg': 'c08', 'run': 'TestClientSide', 'checks': {'quick': 12000, 'thorough': 480000}, 'shards': {'quick': 4, 'thorough': 16}},
           {'pkg': 'c08', 'run': 'TestPoolHistory', 'checks': {'quick': 2400, 'thorough': 96000}, 'shards': {'quick': 8, 'thorough': 16}, 'gomaxprocs': 1}]},
+    'C06': {'level': 'exploration',
+ 'assumptions': ['responses reach the client through a scripted HTTPClient (status, header multimap, body bytes, trailer multimap, HTTP version numbers chosen '
+                 'freely)',
+                 'not asserted: which code statuses outside {401,403,404,429,502,503,504} map to; responses naming an encoding the client lacks; '
+                 'code_<n>/unknown names in a Connect error body; envelope prefixes declaring >1 MiB more than present (without a read limit the library '
+                 'allocates the declared size, which only slows the search)'],
+ 'jobs': [{'pkg': 'c06', 'run': 'TestHostile', 'checks': {'quick': 12000, 'thorough': 800000}, 'shards': {'quick': 8, 'thorough': 16}},
+          {'pkg': 'c06', 'run': 'TestMetadataCasing', 'checks': {'quick': 4000, 'thorough': 100000}, 'shards': {'quick': 2, 'thorough': 8}}]},
 }
